@@ -120,11 +120,11 @@ def discharge(ob: Obligation, timeout_ms: int = 30000, try_cvc5: bool = True) ->
     results = []
     for idx, (h, g) in enumerate(split_goal(ob.hyps, ob.goal)):
         r, s, dt = check(h, g, timeout_ms)
-        gt = str(g)
-        gt = gt if len(gt) < 400 else gt[:400] + "..."
         if r == z3.unsat:
-            results.append(Result(ob, "proved", "z3", dt, sub=idx, goal_text=gt))
+            results.append(Result(ob, "proved", "z3", dt, sub=idx))
             continue
+        gt = g.sexpr()  # (the python pretty-printer is very slow on large terms)
+        gt = gt if len(gt) < 600 else gt[:600] + "..."
         if r == z3.sat:
             m = s.model()
             results.append(Result(ob, "refuted", "z3", dt, model=read_model(m, ob.params or {}), sub=idx,
